@@ -24,7 +24,8 @@ chk("C17", "proof",
     "statement) that the transcribed lookup logic over the enum tables regenerated from the source gives exactly one class, ignores "
     "parity, has no overlapping table entries, attributes only channel-1 field-1 codes to channel 1, and equals an independently "
     "written bit-layout decoder of CTA-608 on class, channel, code identity, PAC attributes and characters. The model is compared "
-    "with SccWord on all 65 536 values on every run, and the specification is evaluated on the implementation's own output. "
+    "with SccWord on all 65 536 values on every run, and the specification is evaluated on the implementation's own output; at the reader "
+    "(ttconv.scc.reader.to_model) a caption AA <w> BB must read as AA for control-range words w that are not channel-1 field-1 codes. "
     "Second tie: harness/pytrans_scc.py (fail-closed Python-ast translator) regenerates coq/Gen/SccWordSrc.v from scc/word.py on every run "
     "(SccWord.__init__, _decipher_parity_bit, from_value, from_bytes, is_code, the _find_code or-chain, get_channel, to_text) and "
     "C17_source_refines (all 65 536 values, in the kernel) plus four unbounded range/parity theorems show the generated definitions equal "
